@@ -266,9 +266,16 @@ Converges == <>[]Quiescent
 
 ----------------------------------------------------------------------------
 (* Spec catalogues                                                          *)
+(* dep: the user-facing annotations (allow-shared-ip, address-pool, loadBalancerIPs) are written with  *)
+(* the deprecated metallb.universe.tf prefix; legacy: the Service still carries the deprecated           *)
+(* ip-allocated-from-pool annotation (written by old releases) with that value.  Both are inert in the   *)
+(* model: the code must treat the spellings alike and ignore the legacy record.                          *)
 Sp(type, fam, pol, share, ports, etp, sel, reqIPs, reqPool) ==
   [type |-> type, fam |-> fam, pol |-> pol, v6first |-> FALSE, cips |-> TRUE, share |-> share, ports |-> ports,
-   etp |-> etp, sel |-> sel, reqIPs |-> reqIPs, reqPool |-> reqPool]
+   etp |-> etp, sel |-> sel, reqIPs |-> reqIPs, reqPool |-> reqPool, dep |-> FALSE, legacy |-> "", bad |-> FALSE]
+Bad(sp) == [sp EXCEPT !.bad = TRUE]
+Dep(sp) == [sp EXCEPT !.dep = TRUE]
+Legacy(sp, pn) == [sp EXCEPT !.legacy = pn]
 Plain == Sp("LB", "v4", "S", "", {"tcp80"}, "Cluster", "x", <<>>, "")
 
 (* sharing: keys, ports, traffic policy, type change *)
@@ -282,8 +289,11 @@ SpecsReq(s) ==
   { Plain, Sp("LB", "v4", "S", "", {"tcp80"}, "Cluster", "x", <<0>>, ""),
     Sp("LB", "v4", "S", "", {"tcp80"}, "Cluster", "x", <<1>>, ""),
     Sp("LB", "v4", "S", "", {"tcp80"}, "Cluster", "x", <<>>, "p2"),
+    Dep(Sp("LB", "v4", "S", "", {"tcp80"}, "Cluster", "x", <<>>, "p2")),
+    Sp("LB", "v4", "S", "", {"tcp80"}, "Cluster", "x", <<0>>, "p2"),
+    Bad(Plain),
     Sp("LB", "v4", "S", "k1", {"tcp80"}, "Cluster", "x", <<>>, ""),
-    Sp("LB", "v4", "S", "k1", {"tcp443"}, "Cluster", "x", <<>>, "") }
+    Dep(Sp("LB", "v4", "S", "k1", {"tcp443"}, "Cluster", "x", <<>>, "")) }
 SpecsPlain(s) == { Plain }
 SpecsPlainCIP(s) == { Plain, Sp("CIP", "v4", "S", "", {"tcp80"}, "Cluster", "x", <<>>, "") }
 SpecsDual(s) ==
@@ -291,11 +301,23 @@ SpecsDual(s) ==
     Sp("LB", "dual", "R", "", {"tcp80"}, "Cluster", "x", <<>>, ""),
     Sp("LB", "dual", "P", "", {"tcp80"}, "Cluster", "x", <<>>, ""),
     Sp("LB", "v4", "P", "", {"tcp80"}, "Cluster", "x", <<>>, "") }
-Innocent == Sp("LB", "v4", "S", "k1", {"udp80"}, "Cluster", "x", <<>>, "")
+Innocent == Legacy(Sp("LB", "v4", "S", "k1", {"udp80"}, "Cluster", "x", <<>>, ""), "p1")
 SpecsInnocent(s) == IF s = "s1" THEN { Innocent } ELSE SpecsShare(s)
 
 None == <<>>
 InitTwo == [s \in {"s1", "s2"} |-> Plain]
+(* failing writes: a request that cannot be met (address in no pool), a request for the only address, a re-type *)
+SpecsFault(s) ==
+  { Plain, Sp("LB", "v4", "S", "", {"tcp80"}, "Cluster", "x", <<5>>, ""),
+    Sp("LB", "v4", "S", "", {"tcp80"}, "Cluster", "x", <<0>>, ""), Bad(Plain),
+    Sp("CIP", "v4", "S", "", {"tcp80"}, "Cluster", "x", <<>>, "") }
 InitOne == [s \in {"s1"} |-> Plain]
+InitThree == [s \in {"s1", "s2", "s3"} |-> Plain]
+(* dual-stack requests incl. a requested pair whose IPv4 half is a buggy address *)
+SpecsDualReq(s) ==
+  { Plain, Sp("LB", "dual", "R", "", {"tcp80"}, "Cluster", "x", <<>>, ""),
+    Sp("LB", "dual", "R", "", {"tcp80"}, "Cluster", "x", <<100, 1>>, ""),
+    Sp("LB", "dual", "R", "", {"tcp80"}, "Cluster", "x", <<0, 101>>, ""),
+    Dep(Sp("LB", "dual", "P", "", {"tcp80"}, "Cluster", "x", <<101, 0>>, "")) }
 InitInnocent == [s \in {"s1"} |-> Innocent]
 =============================================================================
